@@ -15,7 +15,7 @@ var verifRpmSlots = []string{"prein", "postin", "preun", "postun", "pretrans", "
 
 // Verif_C09_RpmScripts: each configured script is the scriptlet of its own event, verbatim; others are empty.
 func Verif_C09_RpmScripts() {
-	sc := scen.Payload(scen.Options{})
+	sc := scen.Payload(scen.Options{UmaskChoice: true})
 	mt := time.Unix(1500000000, 0).UTC()
 	var body [7][]byte
 	var set [7]bool
